@@ -124,10 +124,13 @@ pub trait Record {
         };
 
         match self.alignment_span() {
-            Some(Ok(span)) => {
-                let end = usize::from(start) + span - 1;
-                Position::new(end).map(Ok)
-            }
+            Some(Ok(span)) => match (usize::from(start) - 1).checked_add(span) {
+                Some(end) => Position::new(end).map(Ok),
+                None => Some(Err(io::Error::new(
+                    io::ErrorKind::InvalidData,
+                    "alignment end overflow",
+                ))),
+            },
             Some(Err(e)) => Some(Err(e)),
             None => Some(Ok(start)),
         }
